@@ -10,6 +10,7 @@ import Driver.EditorD
 import Driver.RepeatedD
 import Driver.TreeD
 import Driver.CommentsD
+import Driver.CustomD
 /-
 One line in, one line out.  First word selects the model.
 Run: `lake env lean --run Driver/Main.lean < ops.txt`
@@ -37,6 +38,7 @@ def step (w : World) (line : String) : World × String :=
   | "R" :: rest => (w, repStep rest)
   | "T" :: rest => (w, treeStep rest)
   | "M" :: rest => (w, commentsStep rest)
+  | "D" :: rest => (w, customStep rest)
   | "V" :: rest => let (v, out) := viewsStep w.views rest; ({ w with views := v }, out)
   | ["reset"] => ({}, "ok")
   | _ => (w, "!bad-op")
